@@ -628,6 +628,21 @@ func (vc *FuncVC) trCall(e *env, n *ECall) Term {
 		case "fresh": // fresh(r): r was not allocated at function entry
 			al := vc.get(e.old, "alloc", "(Array Int Bool)")
 			return not(app("Bool", "select", al, args[0]))
+		case "unboxstr": // unboxstr(x): the string held by an interface value of dynamic type string
+			return vc.unboxPayload(app("Int", "i!pl", args[0]), "String")
+		case "functag": // functag("pkg.T"): type tag of func(context.Context, pkg.T) error
+			if s, ok := n.Args[0].(*EStr); ok {
+				t := vc.eng.typeByName(s.V)
+				ctx := vc.eng.typeByName("context.Context")
+				if t == nil || ctx == nil {
+					return e.fail("unknown type %q", s.V)
+				}
+				errT := types.Universe.Lookup("error").Type()
+				sig := types.NewSignatureType(nil, nil, nil,
+					types.NewTuple(types.NewVar(0, nil, "", ctx), types.NewVar(0, nil, "", t)),
+					types.NewTuple(types.NewVar(0, nil, "", errT)), false)
+				return intLit(int64(vc.ss.typeTag(sig)))
+			}
 		case "isnil":
 			a, _ := vc.unifyNil(args[0], Term{S: "nil", Sort: nilSort})
 			return eq(a, vc.ss.zero(a.Sort))
